@@ -333,3 +333,532 @@ def kwarg(call, name, pos=None):
 
 def is_const(e, value):
   return isinstance(e, ast.Constant) and e.value is value
+
+
+# ==========================================================================================
+# Spelling-independent helpers (roles, not spellings)
+# ==========================================================================================
+import copy as _copy
+from ..astutil import func_body_walk, assigned_names
+from ..index import FuncInfo
+from ..fn import Fn
+
+
+def _all_params(fnode):
+  a = fnode.args
+  out = [x.arg for x in a.posonlyargs + a.args + a.kwonlyargs]
+  if a.vararg:
+    out.append(a.vararg.arg)
+  if a.kwarg:
+    out.append(a.kwarg.arg)
+  return out
+
+
+def _sub(value, i):
+  return ast.Subscript(value=value, slice=ast.Constant(value=i), ctx=ast.Load())
+
+
+class Expander(object):
+  """
+  What a local *stands for*: a name bound exactly once in the function by a plain assignment
+  (`x = e`, element-wise `a, b = e1, e2`, or positionally `a, b = e` -> `e[0]`, `e[1]`) is replaced
+  by its defining expression, recursively. `norm(e)` is the normalised text of the result, so
+  `n = d[0]; f(n)` and `f(d[0])` compare equal, and `(a, b, c) = cp; u[b:]` equals `u[cp[1]:]`.
+  Used only to compare *roles*; nothing is moved or evaluated.
+  """
+  def __init__(self, fnode):
+    self.fnode = fnode
+    self.params = set(_all_params(fnode))
+    counts = {}
+    vals = {}
+    def bind(t, v):
+      if isinstance(t, ast.Name):
+        counts[t.id] = counts.get(t.id, 0) + 1
+        if v is not None:
+          vals[t.id] = v
+      elif isinstance(t, (ast.Tuple, ast.List)):
+        if any(isinstance(e, ast.Starred) for e in t.elts):
+          for nm in assigned_names(t):
+            counts[nm] = counts.get(nm, 0) + 2
+          return
+        if isinstance(v, (ast.Tuple, ast.List)) and len(v.elts) == len(t.elts) and \
+            not any(isinstance(e, ast.Starred) for e in v.elts):
+          for a, b in zip(t.elts, v.elts):
+            bind(a, b)
+        else:
+          for i, a in enumerate(t.elts):
+            bind(a, _sub(v, i) if v is not None else None)
+    for n in func_body_walk(fnode):
+      if isinstance(n, ast.Assign):
+        for t in n.targets:
+          bind(t, n.value)
+      elif isinstance(n, ast.AnnAssign) and n.value is not None:
+        bind(n.target, n.value)
+      elif isinstance(n, (ast.AugAssign, ast.For, ast.AsyncFor, ast.NamedExpr)):
+        for nm in assigned_names(n.target):
+          counts[nm] = counts.get(nm, 0) + 2
+      elif isinstance(n, (ast.With, ast.AsyncWith)):
+        for it in n.items:
+          if it.optional_vars is not None:
+            for nm in assigned_names(it.optional_vars):
+              counts[nm] = counts.get(nm, 0) + 2
+      elif isinstance(n, ast.ExceptHandler) and n.name:
+        counts[n.name] = counts.get(n.name, 0) + 2
+      elif isinstance(n, ast.Delete):
+        for t in n.targets:
+          for nm in assigned_names(t):
+            counts[nm] = counts.get(nm, 0) + 2
+      elif isinstance(n, (ast.Global, ast.Nonlocal)):
+        for nm in n.names:
+          counts[nm] = counts.get(nm, 0) + 2
+      elif isinstance(n, (ast.Import, ast.ImportFrom)):
+        for a in n.names:
+          nm = (a.asname or a.name).split(".")[0]
+          counts[nm] = counts.get(nm, 0) + 2
+    for s in ast.walk(fnode):
+      if isinstance(s, (ast.FunctionDef, ast.AsyncFunctionDef, ast.ClassDef)) and s is not fnode:
+        counts[s.name] = counts.get(s.name, 0) + 2
+    self.vals = {nm: v for nm, v in vals.items()
+                 if counts.get(nm) == 1 and nm not in self.params}
+
+  def value(self, name):
+    """Defining expression of a single-assignment local (unexpanded), else None."""
+    return self.vals.get(name)
+
+  def expand(self, e, _stack=()):
+    if e is None:
+      return None
+    ex = self
+    class Tr(ast.NodeTransformer):
+      def __init__(self):
+        self.shadow = []
+      def _shadowed(self, nm):
+        return any(nm in s for s in self.shadow)
+      def visit_Name(self, node):
+        if isinstance(node.ctx, ast.Load) and node.id in ex.vals and \
+            not self._shadowed(node.id) and node.id not in _stack and len(_stack) < 8:
+          return ex.expand(ex.vals[node.id], _stack + (node.id,))
+        return node
+      def visit_Lambda(self, node):
+        self.shadow.append(set(_all_params(node)))
+        node.body = self.visit(node.body)
+        self.shadow.pop()
+        return node
+      def _comp(self, node):
+        bound = set()
+        for g in node.generators:
+          bound |= assigned_names(g.target)
+        # the first iterable is evaluated in the enclosing scope
+        first = node.generators[0]
+        first.iter = self.visit(first.iter)
+        self.shadow.append(bound)
+        for i, g in enumerate(node.generators):
+          if i:
+            g.iter = self.visit(g.iter)
+          g.ifs = [self.visit(x) for x in g.ifs]
+        for fld in ("elt", "key", "value"):
+          if hasattr(node, fld):
+            setattr(node, fld, self.visit(getattr(node, fld)))
+        self.shadow.pop()
+        return node
+      visit_ListComp = visit_SetComp = visit_GeneratorExp = visit_DictComp = _comp
+    return Tr().visit(_copy.deepcopy(e))
+
+  def norm(self, e):
+    return text(self.expand(e)) if e is not None else None
+
+  def deref(self, e):
+    """Follow a bare Name to the (expanded) expression it stands for; other nodes: expanded."""
+    return self.expand(e)
+
+
+def expander(fn):
+  """Cached Expander of an Fn."""
+  ex = getattr(fn, "_expander", None)
+  if ex is None:
+    ex = fn._expander = Expander(fn.node)
+  return ex
+
+
+def strip_wrappers(e, names=("list", "tuple", "sorted", "iter")):
+  """Peel order/content-preserving wrappers: list(x) -> x."""
+  while isinstance(e, ast.Call) and dotted(e.func) in names and len(e.args) == 1 and not e.keywords:
+    e = e.args[0]
+  return e
+
+
+# ------------------------------------------------------------------------------------------
+def bind_call(call, fi, bound=None):
+  """{parameter name: argument expression} of `call` against the signature of fi (defaults filled
+  in for omitted parameters); None when it cannot be matched statically (*args / **kwargs)."""
+  a = fi.node.args
+  allpos = [x.arg for x in a.posonlyargs + a.args]
+  names = list(allpos)
+  if bound is None:
+    bound = fi.cls is not None and fi.parent is None and names[:1] in (["self"], ["cls"]) and \
+        not any(dotted(d) == "staticmethod" for d in fi.decorators())
+  if bound:
+    names = names[1:]
+  if any(isinstance(x, ast.Starred) for x in call.args) or any(k.arg is None for k in call.keywords):
+    return None
+  if len(call.args) > len(names):
+    return None
+  out = {}
+  for n, v in zip(names, call.args):
+    out[n] = v
+  kwonly = [x.arg for x in a.kwonlyargs]
+  for k in call.keywords:
+    if k.arg in out or not (k.arg in names or k.arg in kwonly):
+      return None
+    out[k.arg] = k.value
+  off = len(allpos) - len(a.defaults)
+  for i, n in enumerate(allpos):
+    if n in names and n not in out and i >= off:
+      out[n] = a.defaults[i - off]
+  for x, d in zip(a.kwonlyargs, a.kw_defaults):
+    if x.arg not in out and d is not None:
+      out[x.arg] = d
+  for n in names + kwonly:
+    if n not in out:
+      return None
+  return out
+
+
+def call_arg(call, fi, pname, bound=None):
+  """Argument passed for parameter `pname` (positionally, by keyword, or its default), else None."""
+  m = bind_call(call, fi, bound)
+  return None if m is None else m.get(pname)
+
+
+# ------------------------------------------------------------------------------------------
+class _Subst(ast.NodeTransformer):
+  """Rename locals / substitute parameters in a copied helper body."""
+  def __init__(self, ren, sub):
+    self.ren = ren      # old local name -> new local name
+    self.sub = sub      # parameter name -> expression (Load sites only)
+
+  def visit_Name(self, node):
+    if node.id in self.sub and isinstance(node.ctx, ast.Load):
+      return _copy.deepcopy(self.sub[node.id])
+    if node.id in self.ren:
+      return ast.copy_location(ast.Name(id=self.ren[node.id], ctx=node.ctx), node)
+    return node
+
+  def visit_ExceptHandler(self, node):
+    if node.name in self.ren:
+      node.name = self.ren[node.name]
+    self.generic_visit(node)
+    return node
+
+
+def _simple_arg(e):
+  if isinstance(e, (ast.Name, ast.Constant)):
+    return True
+  if isinstance(e, ast.Attribute):
+    return _simple_arg(e.value)
+  return False
+
+
+def _count_stmts(stmts):
+  n = 0
+  for s in stmts:
+    for x in ast.walk(s):
+      if isinstance(x, ast.stmt):
+        n += 1
+  return n
+
+
+def _returns_in_loops(stmts, in_loop=False):
+  """Does a `return` occur inside a loop of these statements (not in nested defs)?"""
+  for s in stmts:
+    if isinstance(s, (ast.FunctionDef, ast.AsyncFunctionDef, ast.ClassDef)):
+      continue
+    if isinstance(s, ast.Return) and in_loop:
+      return True
+    inner = in_loop or isinstance(s, (ast.For, ast.While, ast.AsyncFor))
+    for fld in ("body", "orelse", "finalbody"):
+      b = getattr(s, fld, None)
+      if isinstance(b, list) and b and isinstance(b[0], ast.stmt):
+        if _returns_in_loops(b, inner):
+          return True
+    for h in getattr(s, "handlers", []) or []:
+      if _returns_in_loops(h.body, inner):
+        return True
+  return False
+
+
+def _strip_doc(body):
+  if body and isinstance(body[0], ast.Expr) and isinstance(body[0].value, ast.Constant) and \
+      isinstance(body[0].value.value, str):
+    return body[1:]
+  return body
+
+
+class Inliner(object):
+  """
+  Undo "a few statements extracted into a helper": builds, for a function, a copy of its AST in
+  which calls of small same-class methods (`self.h(...)`) and same-module functions (`h(...)`) whose
+  names are not in `keep` (the role-bearing functions the rules anchor on) are replaced by the
+  helper's body, parameters substituted, locals renamed apart, followed `depth` levels. A helper
+  with early returns is wrapped in a synthetic `while True: ...; break` (marked `_inl`), its
+  returns becoming breaks. Calls that cannot be inlined (varargs, recursion, returns inside
+  loops, generators, decorated or large helpers) are left alone. Nothing is executed.
+  """
+  def __init__(self, world, keep=(), max_stmts=30, max_public=10, depth=2):
+    self.w = world
+    self.keep = set(keep)
+    self.max_stmts = max_stmts
+    self.max_public = max_public
+    self.depth = depth
+    self._cache = {}
+    self._n = 0
+
+  # ---- resolution
+  def _callee(self, fi, call, caller_names):
+    f = call.func
+    repo = self.w.repo
+    if isinstance(f, ast.Attribute) and isinstance(f.value, ast.Name) and f.value.id == "self" \
+        and fi.cls is not None:
+      if len(repo.subclasses(fi.cls, strict=True)) and any(
+          f.attr in c.methods for c in repo.subclasses(fi.cls, strict=True)):
+        return None
+      c = repo.find_method(fi.cls, f.attr)
+      return (c, True) if c is not None else None
+    if isinstance(f, ast.Name) and f.id not in caller_names:
+      c = fi.module.functions.get(f.id)
+      return (c, False) if c is not None else None
+    return None
+
+  def _inlinable(self, callee, stack):
+    if callee.name in self.keep or callee.qualname in self.keep or callee.qualname in stack:
+      return False
+    if callee.decorators():
+      return False
+    node = callee.node
+    if node.args.vararg or node.args.kwarg:
+      return False
+    body = _strip_doc(node.body)
+    limit = self.max_stmts if callee.name.startswith("_") and not callee.name.startswith("__") \
+        else self.max_public
+    if not body or _count_stmts(body) > limit:
+      return False
+    for x in ast.walk(node):
+      if isinstance(x, (ast.Yield, ast.YieldFrom, ast.Global, ast.Nonlocal, ast.Await)):
+        return False
+      if isinstance(x, (ast.FunctionDef, ast.AsyncFunctionDef, ast.ClassDef)) and x is not node:
+        return False
+    return True
+
+  # ---- one call
+  def _expand_call(self, fi, stmt, call, mode, target, names, stack, depth):
+    """Statements replacing `stmt` (a statement whose value is `call`), or None."""
+    r = self._callee(fi, call, names)
+    if r is None:
+      return None
+    callee, bound = r
+    if not self._inlinable(callee, stack):
+      return None
+    args = bind_call(call, callee, bound=bound)
+    if args is None:
+      return None
+    body = _copy.deepcopy(_strip_doc(callee.node.body))
+    if mode != "return" and _returns_in_loops(body):
+      return None
+    self._n += 1
+    tag = "__h%d" % self._n
+    # locals of the helper, renamed apart from the caller's names
+    params = [p for p in _all_params(callee.node) if not (bound and p in ("self", "cls"))]
+    stored = set()
+    for s in body:
+      for x in ast.walk(s):
+        if isinstance(x, ast.Name) and isinstance(x.ctx, (ast.Store, ast.Del)):
+          stored.add(x.id)
+        elif isinstance(x, ast.ExceptHandler) and x.name:
+          stored.add(x.name)
+    ren, sub, pre = {}, {}, []
+    for p in params:
+      a = args[p]
+      if p not in stored and _simple_arg(a):
+        sub[p] = a
+      else:
+        newp = p + tag if p in names else p
+        ren[p] = newp
+        asg = ast.Assign(targets=[ast.Name(id=newp, ctx=ast.Store())], value=_copy.deepcopy(a))
+        pre.append(ast.copy_location(asg, stmt))
+    for nm in stored:
+      if nm not in ren and nm not in sub and nm in names:
+        ren[nm] = nm + tag
+    tr = _Subst(ren, sub)
+    body = [tr.visit(s) for s in body]
+    names |= set(ren.values()) | stored
+    # returns
+    rets = [x for s in body for x in walk_no_nested(s) if isinstance(x, ast.Return)]
+    def loc(n):
+      return ast.copy_location(n, stmt)
+    if mode == "return":
+      out = pre + body
+      if not (out and isinstance(out[-1], (ast.Return, ast.Raise))):
+        out.append(loc(ast.Return(value=None)))
+    else:
+      tail_only = all(x is body[-1] for x in rets)
+      def conv(x):
+        """statements replacing `return v`"""
+        o = []
+        if mode == "assign":
+          v = x.value if x.value is not None else ast.Constant(value=None)
+          o.append(ast.copy_location(ast.Assign(targets=[_copy.deepcopy(target)], value=v), x))
+        elif x.value is not None and not isinstance(x.value, (ast.Constant, ast.Name)):
+          o.append(ast.copy_location(ast.Expr(value=x.value), x))
+        return o
+      falls_off = not (body and isinstance(body[-1], (ast.Return, ast.Raise)))
+      if tail_only:
+        out = pre + body[:-1] + conv(body[-1]) if rets else pre + body
+        if falls_off and mode == "assign":
+          out.append(loc(ast.Assign(targets=[_copy.deepcopy(target)],
+                                    value=ast.Constant(value=None))))
+      else:
+        class R(ast.NodeTransformer):
+          def visit_FunctionDef(self, n): return n
+          def visit_Lambda(self, n): return n
+          def visit_Return(self, n):
+            return conv(n) + [ast.copy_location(ast.Break(), n)]
+        nb = []
+        for s in body:
+          r2 = R().visit(s)
+          nb.extend(r2 if isinstance(r2, list) else [r2])
+        if falls_off and mode == "assign":
+          nb.append(loc(ast.Assign(targets=[_copy.deepcopy(target)],
+                                   value=ast.Constant(value=None))))
+        nb.append(loc(ast.Break()))
+        wh = loc(ast.While(test=ast.Constant(value=True), body=nb, orelse=[]))
+        wh._inl = True
+        out = pre + [wh]
+      if not out:
+        out = [loc(ast.Pass())]
+    for s in out:
+      ast.fix_missing_locations(s)
+    if depth > 1:
+      out = self._block(fi, out, names, stack + (callee.qualname,), depth - 1)
+    return out
+
+  def _expr_helper(self, fi, call, names, stack):
+    """`return <expr>`-only helper called inside an expression: the substituted expression."""
+    r = self._callee(fi, call, names)
+    if r is None:
+      return None
+    callee, bound = r
+    if not self._inlinable(callee, stack):
+      return None
+    body = _strip_doc(callee.node.body)
+    if len(body) != 1 or not isinstance(body[0], ast.Return) or body[0].value is None:
+      return None
+    args = bind_call(call, callee, bound=bound)
+    if args is None:
+      return None
+    e = _copy.deepcopy(body[0].value)
+    inner = set()
+    for x in ast.walk(e):
+      if isinstance(x, ast.Name) and isinstance(x.ctx, ast.Store):
+        inner.add(x.id)
+      if isinstance(x, ast.Lambda):
+        inner |= set(_all_params(x))
+    if inner & (set(args) | names):
+      return None
+    sub = {p: a for p, a in args.items()}
+    return _Subst({}, sub).visit(e)
+
+  def _exprs(self, fi, node, names, stack):
+    """Replace expression-helper calls inside the expressions of one statement header."""
+    inl = self
+    class T(ast.NodeTransformer):
+      def visit_FunctionDef(self, n): return n
+      def visit_AsyncFunctionDef(self, n): return n
+      def visit_ClassDef(self, n): return n
+      def visit_Call(self, n):
+        self.generic_visit(n)
+        r = inl._expr_helper(fi, n, names, stack)
+        if r is not None:
+          return ast.copy_location(r, n)
+        return n
+    t = T()
+    for fld, val in ast.iter_fields(node):
+      if fld in ("body", "orelse", "finalbody", "handlers"):
+        continue
+      if isinstance(val, ast.AST):
+        setattr(node, fld, t.visit(val))
+      elif isinstance(val, list):
+        setattr(node, fld, [t.visit(v) if isinstance(v, ast.AST) else v for v in val])
+    return node
+
+  def _block(self, fi, stmts, names, stack, depth):
+    out = []
+    for s in stmts:
+      if isinstance(s, (ast.FunctionDef, ast.AsyncFunctionDef, ast.ClassDef)):
+        out.append(s)
+        continue
+      rep = None
+      if depth > 0:
+        if isinstance(s, ast.Expr) and isinstance(s.value, ast.Call):
+          rep = self._expand_call(fi, s, s.value, "expr", None, names, stack, depth)
+        elif isinstance(s, ast.Assign) and isinstance(s.value, ast.Call) and len(s.targets) == 1 \
+            and isinstance(s.targets[0], (ast.Name, ast.Attribute, ast.Tuple)):
+          rep = self._expand_call(fi, s, s.value, "assign", s.targets[0], names, stack, depth)
+        elif isinstance(s, ast.Return) and isinstance(s.value, ast.Call):
+          rep = self._expand_call(fi, s, s.value, "return", None, names, stack, depth)
+      if rep is not None:
+        out.extend(rep)
+        continue
+      if depth > 0:
+        self._exprs(fi, s, names, stack)
+      for fld in ("body", "orelse", "finalbody"):
+        b = getattr(s, fld, None)
+        if isinstance(b, list) and b and isinstance(b[0], ast.stmt):
+          setattr(s, fld, self._block(fi, b, names, stack, depth))
+      for h in getattr(s, "handlers", []) or []:
+        h.body = self._block(fi, h.body, names, stack, depth)
+      out.append(s)
+    return out
+
+  # ---- entry point
+  def fn(self, qualname):
+    """Fn over the inlined copy of the function (same qualname, same FuncInfo identity data)."""
+    if qualname in self._cache:
+      return self._cache[qualname]
+    fi = self.w.repo.func(qualname)
+    node = _copy.deepcopy(fi.node)
+    names = set(_all_params(node))
+    for x in ast.walk(node):
+      if isinstance(x, ast.Name):
+        names.add(x.id)
+    node.body = self._block(fi, node.body, names, (fi.qualname,), self.depth)
+    ast.fix_missing_locations(node)
+    f = IFn(self.w, fi, node)
+    self._cache[qualname] = f
+    return f
+
+  def fn_of(self, fi):
+    return self.fn(fi.qualname)
+
+
+class IFn(Fn):
+  """Fn over a rewritten copy of a function's AST (see Inliner)."""
+  def __init__(self, world, fi, node):
+    fi2 = FuncInfo(fi.module, fi.cls, node, fi.qualname, fi.parent)
+    Fn.__init__(self, world, fi2)
+    self.orig = fi
+    self._tfi = FuncInfo(fi.module, fi.cls, node, fi.qualname + "@inl", fi.parent)
+
+  @property
+  def env(self):
+    if self._env is None:
+      self._env = self.world.typer.env(self._tfi)
+    return self._env
+
+  @property
+  def inlined(self):
+    return text(self.node) != text(self.orig.node)
+
+
+def real_loops(stmts, types=(ast.For, ast.While)):
+  """Loops of the code under `stmts`, the Inliner's synthetic wrappers excluded."""
+  return [s for s in stmts_in(stmts, types) if not getattr(s, "_inl", False)]
